@@ -274,9 +274,38 @@ package immutable
 //@   call oldFileExist
 //@     set oldFileChecked = ret0
 
+// Replacement protocol: intent log -> rename new files -> delete old files -> install new files -> remove the log.
+// Old files are deleted only after the log was written and every new file renamed; the log is removed only after the
+// new files were installed (a stop or crash while old files are being deleted must leave the log for recovery).
+//@ func (*MmsTables).ReplaceFiles
+//@   ghost st int = 0
+//@   ghost installed bool = false
+//@   call (*MmsTables).writeCompactedFileInfo
+//@     set st = (ret1 == nil ? 1 : 0)
+//@   call RenameTmpFiles
+//@     requires [rename_after_log] st == 1
+//@     set st = (ret0 == nil ? 2 : -1)
+//@   call (*TSSPFiles).deleteFile
+//@     requires [delete_after_renames] st == 2
+//@   call .deleteFiles
+//@     requires [delete_after_renames] st == 2
+//@   store TSSPFiles.files
+//@     requires [install_after_renames] st == 2
+//@     set installed = true
+//@   call fileops.Remove
+//@     requires [log_removed_last] st == 0 || installed
+//@   loop 1
+//@     invariant st == 2 && !installed
+
 // Startup recovery removes a log only after it tried to process it; dirty logs are skipped untouched.
 //@ func procCompactLog
 //@   ghost processed bool = false
+//@   ghost rd bool = false
+//@   ghost dirty bool = false
+//@   call readCompactLogFile
+//@     set rd = true
+//@     set dirty = (ret0 == ErrDirtyLog)
+//@   ensures [dirty_log_is_skipped_not_fatal] result != nil && rd ==> !dirty
 //@   call processLog
 //@     set processed = true
 //@   call fileops.Remove
